@@ -2141,9 +2141,14 @@ CLAIM = ("PARTIAL. Proved in Lean, for all inputs, about models tied to the code
          "is exact (sound, complete, duplicate free), so `classNumber D` is the number of reduced primitive forms; (3b) the relation filter before the "
          "linear algebra (RelFilterSparse) only derives consequences of its input relations, whatever it pivots on, trims or aborts (filter_hom); "
          "(4) the reported cyclic factors "
-         "multiply to the reported class number whenever the Smith diagonal does. NOT proved, explored only: that the analytic estimate pins the "
+         "multiply to the reported class number whenever the Smith diagonal does; (5) a sieved relation is a genuine relation (relation_genuine): for every "
+         "relation built by the model of the sieve_block_poly loop body (conversion loop, Poly::factors, merge, large primes) the prime forms [p]^(+-1) of its "
+         "entries, with exactly the signs the code emits (ramified primes, p = 2, primes of A, large primes included), compose by explicit Dirichlet "
+         "compositions of concordant forms to the principal form (hypotheses: large primes are odd primes; primitivity, automatic for fundamental D); "
+         "(6) classgroup::legendre is the Legendre symbol for every odd prime below 2^30 and panics above (Dividers::new). "
+         "NOT proved, explored only: that the analytic estimate pins the "
          "right multiple (every reported class number is compared with an independent reduced-form count: exhaustively below the tier bound, "
-         "randomly up to 2^40/2^44) and that sieved relations are genuine (every line of relations.sieve of the sampled runs up to 128 bits, with "
+         "randomly up to 2^40/2^44); that composition is well defined on classes (so the relations are still re-checked: every line of relations.sieve of the sampled runs up to 128 bits, with "
          "and without thread pool and double large primes, is recomputed with independent form arithmetic and mapped to 0 by the reported "
          "coordinates; group invariants are compared with the orders of all reduced forms for small h, 2-ranks with genus theory, generator "
          "coordinates with true element orders, the coordinates must generate the reported product of cyclic groups).")
